@@ -72,6 +72,7 @@ func pmPods(base int32) map[string][]k8s.Port {
 		"x2": {{HostPort: base + 1, ContainerPort: 80, Protocol: "TCP", PodName: "x", PodIP: "10.0.0.9"}}, // x re-created with a new IP: same chain name, other content
 		"y":  {{HostPort: base + 2, ContainerPort: 8080, Protocol: "UDP", PodName: "y", PodIP: "10.0.0.3", HostIP: "10.1.1.1"}, {HostPort: base + 3, ContainerPort: 80, Protocol: "TCP", PodName: "y", PodIP: "10.0.0.3"}},
 		"z":  {{HostPort: base + 1, ContainerPort: 8080, Protocol: "UDP", PodName: "z", PodIP: "10.0.0.4"}}, // same host port number as x, other protocol
+		"v":  {{HostPort: base + 4, ContainerPort: 80, Protocol: "TCP", PodName: "v", PodIP: "10.0.0.5", HostIP: "0.0.0.0"}}, // the wildcard address as host IP
 	}
 }
 
@@ -147,10 +148,10 @@ func c14Job(prior string, base int32, depth int) Job {
 		t0 := time.Now()
 		r := newCaseResult()
 		pods := pmPods(base)
-		podSets := [][]string{{}, {"x"}, {"y"}, {"x", "y"}, {"x2"}, {"x", "z"}, {"x2", "y"}}
+		podSets := [][]string{{}, {"x"}, {"y"}, {"x", "y"}, {"x2"}, {"x", "z"}, {"x2", "y"}, {"x", "v"}}
 		var alphabet []pmOp
 		alphabet = append(alphabet, pmOp{"basic", nil})
-		for _, p := range []string{"x", "y", "x2", "z"} {
+		for _, p := range []string{"x", "y", "x2", "z", "v"} {
 			alphabet = append(alphabet, pmOp{"setup", []string{p}}, pmOp{"clean", []string{p}})
 		}
 		for _, ps := range podSets {
@@ -439,7 +440,7 @@ func init() {
 	base := int32(42000 + (os.Getpid()%200)*20)
 	register(&Property{ID: "C14", Level: "model_checking", QuickS: 100, ThoroughS: 600,
 		Assume: []string{"netfilter is the exec-level simulator mc/nfsim (atomic restore, chain-line flush under --noflush, reference checks on -X/-j); the repository's iptables runner and save/restore parsers run on top of it",
-			"pods: x, x re-created with a new IP (same chain name), y (two ports, one with hostIP), z (same port number, other protocol); prior NAT tables: empty, foreign chains/rules, stale galaxy chains",
+			"pods: x, x re-created with a new IP (same chain name), y (two ports, one with hostIP), z (same port number, other protocol), v (host IP 0.0.0.0); prior NAT tables: empty, foreign chains/rules, stale galaxy chains",
 			"host ports are real sockets on this machine (port numbers offset per process)"},
 		Rule: "BFS over histories of {ensure-basic, setup(p), clean(p), fullsync(S)} for p in {x,x2,y,z}, 7 pod sets S, from each prior NAT table; state = iptables-save of the NAT table; every transition is checked against " +
 			"the differential reference (the same pods synced on an empty kernel) for the named pods, byte-for-byte equality for other pods' and foreign chains, and for kernel-rejected commands; plus exhaustive open/hold/close of host-port lists for two pods, and every schedule (preemption-bounded) of overlapping set-up / tear-down on one handler against the sequential orders of the same operations",
